@@ -26,6 +26,7 @@ from . import init as _init  # noqa: F401
 from .common import strings_equal
 
 f_dumps = z3.Function("json_dumps_indent2", StrSort, z3.IntSort(), StrSort)
+JSON_MARK = "\x00json.dumps#%d\x00"
 
 
 class FakeParser(object):
@@ -110,7 +111,8 @@ class Main(Contract):
             doc = args[0]
             ctx.data["json_calls"].append((doc, dict(kwargs)))
             if isinstance(doc, JsonDoc):
-                return SStr(f_dumps(S.str_z(doc.obj.fields["vector"]) if isinstance(doc.obj, SObj) else lit("?"), z3.IntVal(len(ctx.data["json_calls"]))))
+                # an opaque text: a marker no other printed piece can contain
+                return JSON_MARK % len(ctx.data["json_calls"])
             raise Unsupported("json.dumps of a document that is not the result of as_json")
 
         base_on_call = None
@@ -185,14 +187,20 @@ class Main(Contract):
             ok = len(jc) == 1 and isinstance(jc[0][0], JsonDoc) and jc[0][0].obj is o and jc[0][0].sort is True \
                 and jc[0][0].minimal is True and jc[0][1] == {"indent": 2}
             ctx.prove("post:json-is-sorted-minimal-as_json", ok, "-j prints json.dumps(as_json(sort=True, minimal=True), indent=2)")
-            exp.append(None)  # the JSON line is checked through the call record
+            exp.append("CVSS vector in JSON:\n" + (JSON_MARK % 1) + "\n")
         else:
             ctx.prove("post:no-json-without-j", not ctx.data["json_calls"], "no JSON without -j")
-        ctx.prove("post:number-of-lines", len(out) == len(exp), "prints %d pieces, expected %d" % (len(out), len(exp)))
-        for k, (got, want) in enumerate(zip(out, exp)):
-            if want is None:
-                continue
-            ctx.prove("post:stdout[%d]" % k, strings_equal(got, want), "printed piece %d is as the library API reports" % k)
+        # the printed text as a whole (not the way it is cut into print calls)
+        from pyvc.sym import eq_z3
+
+        got_text, want_text = S.concat_all(out), S.concat_all(exp)
+        z = S.structural_eq(got_text, want_text, eq_z3)
+        if z is None:
+            if isinstance(got_text, str) and isinstance(want_text, str):
+                z = z3.BoolVal(got_text == want_text)
+            else:
+                raise Unsupported("standard output of an unexpected shape (%d pieces printed)" % len(out))
+        ctx.prove("post:stdout", z, "the printed text is exactly what the library API reports, line by line")
 
     def to_text(self, ctx, v):
         from pyvc.models import builtin_str
